@@ -341,7 +341,28 @@ func (ab actionsBuilder) prepareProcessorActions(oldConfig, newConfig config.Pro
 		return nil
 	}
 
-	// the processor changed, and all parts of a processor are updateable
+	if oldConfig.Condition != newConfig.Condition {
+		// The condition is fixed when a processor is created, the processor
+		// service cannot update it. An update action would store everything
+		// but the condition, so the import would "succeed" while the processor
+		// kept evaluating the old condition and every later plan listed the
+		// same change again. Recreate the processor instead; the parent refers
+		// to it by ID, so its place in the processor order is kept.
+		return []action{
+			deleteProcessorAction{
+				cfg:              oldConfig,
+				parent:           parent,
+				processorService: ab.processorService,
+			},
+			createProcessorAction{
+				cfg:              newConfig,
+				parent:           parent,
+				processorService: ab.processorService,
+			},
+		}
+	}
+
+	// the processor changed, and all other parts of a processor are updateable
 	return []action{updateProcessorAction{
 		oldConfig:        oldConfig,
 		newConfig:        newConfig,
